@@ -6,13 +6,17 @@ import sys
 
 def main():
     sys.path.insert(0, sys.argv[2])
-    from harness import gen_runs as R, loader, runsnap as S
+    from harness import c11_life as L, gen_runs as R, loader, runsnap as S
+    import numpy as np
     bt = loader.load_bt()
     out = []
     for spec in json.load(open(sys.argv[1])):
+        life = spec.get("kind") == "life"
         random.seed(spec.get("global_seed", 12345))
+        if life:
+            np.random.seed(spec.get("global_seed", 12345) % (2 ** 32))
         try:
-            b, data, add = R.build_backtest(bt, spec)
+            b, data, add = L.build_life_backtest(bt, spec) if life else R.build_backtest(bt, spec)
         except Exception as e:  # noqa
             out.append({"digest": "build:" + type(e).__name__, "err": type(e).__name__, "final": None, "universe": None})
             continue
@@ -22,8 +26,12 @@ def main():
         except Exception as e:  # noqa
             err = type(e).__name__
         h = S.node_histories(bt, b.strategy) if hasattr(b.strategy, "data") else {}
-        out.append({"digest": S.digest(h), "err": err, "final": float(b.strategy._value) if err is None else None,
-                    "universe": [str(c) for c in b.strategy._universe.columns] if hasattr(b.strategy, "_universe") else None})
+        o = {"digest": S.digest(h), "err": err, "final": float(b.strategy._value) if err is None else None,
+             "universe": [str(c) for c in b.strategy._universe.columns] if hasattr(b.strategy, "_universe") else None}
+        if life:
+            o["inactive"] = L.inactive_names(b.strategy)
+            o["held"] = sorted(n for n, c in b.strategy.children.items() if getattr(c, "_position", 0) != 0)
+        out.append(o)
     print(json.dumps(out))
 
 
